@@ -241,6 +241,17 @@ def rand_case(rng):
     return "%s;%s;%s;%s;%s" % (codec, ",".join(ws), ",".join(fs), ",".join(ss), ",".join(ops))
 
 
+def small_case(rng):
+    """short runs with tiny items and tiny accepts: every one of them can be re-evaluated inside Coq (to_coq)"""
+    codec = rng.choice(["bytes", "lines", "lp"])
+    ops = [rng.choice(["r", "f", "f", "c", "s%dx%d" % (rng.randint(0, 5), rng.randint(0, 25)), "s%dx%d" % (rng.randint(0, 5), rng.randint(0, 25))])
+           for _ in range(rng.randint(1, 7))]
+    ws = [rng.choice(["a1", "a1", "a2", "a3", "a5", "a100", "p", "z", "e", "a0"]) for _ in range(rng.randint(0, 6))]
+    fs = [rng.choice("oope") for _ in range(rng.randint(0, 3))]
+    ss = [rng.choice("ope") for _ in range(rng.randint(0, 2))]
+    return "%s;%s;%s;%s;%s" % (codec, ",".join(ws), ",".join(fs), ",".join(ss), ",".join(ops))
+
+
 def zl(b):
     return "[" + "; ".join(str(x) for x in b) + "]"
 
@@ -293,7 +304,7 @@ def streams(ctx):
     quick = ctx.tier == "quick"
     rng = ctx.rng
     enum = []
-    plan = [("bytes", 4, 12), ("lines", 3, 12), ("lp", 3, 8)] if quick else [("bytes", 5, 40), ("lines", 5, 24), ("lp", 4, 24)]
+    plan = [("bytes", 4, 24), ("lines", 4, 12), ("lp", 3, 12)] if quick else [("bytes", 6, 16), ("lines", 5, 40), ("lp", 5, 16)]
     for codec, N, per in plan:
         enum += enum_cases(codec, N, per, rng)
     # every transport script at least once on a fixed interesting call sequence
@@ -305,11 +316,17 @@ def streams(ctx):
                 to_coq=to_coq, coq_imports="From AN Require Import Model.Lines Model.Framed.", timeout=300 if quick else 1500,
                 describe="every sequence of <= N Sink calls over {r,f,c,small item, item filling to HW exactly, item of HW} x sampled "
                          "transport scripts; plan (codec, N, scripts per sequence) = %s; %d cases" % (plan, len(enum)))
-    nr = 4000 if quick else 150000
+    nr = 10000 if quick else 300000
     rnd = [rand_case(rng) for _ in range(nr)]
     s2 = Stream("c14rand", "c14", rnd, monitor=monitor, nontrivial=nontrivial, shrink=shrink, finding_key=finding_key,
                 timeout=300 if quick else 1500,
                 describe="%d random runs of 5..40 Sink calls, item sizes from %s (lp: 0..300 incl. refused ones and bursts of 33 x 254), "
                          "write answers a<k> with k from %s / Pending / zero / error, random flush and shutdown answers"
                          % (nr, SIZES, ACCEPTS))
-    return [s1, s2]
+    ns = 5000 if quick else 200000
+    sm = [small_case(rng) for _ in range(ns)]
+    s3 = Stream("c14small", "c14", sm, monitor=monitor, nontrivial=nontrivial, shrink=shrink, finding_key=finding_key,
+                to_coq=to_coq, coq_imports="From AN Require Import Model.Lines Model.Framed.", timeout=300 if quick else 1500,
+                describe="%d random runs of 1..7 calls with items of 0..5 bytes and accepts of 0,1,2,3,5,100 bytes; a sample is "
+                         "re-evaluated inside Coq with vm_compute (extraction guard)" % ns)
+    return [s1, s2, s3]
